@@ -443,6 +443,10 @@ def compare(st, b, pre, m):
     elif st.mode == 'dead':
         if sorted(removed) != sorted(m['removed']): d.append('removed set: impl %s, model %s' % (sorted(removed), sorted(m['removed'])))
     elif removed != m['removed']: d.append('removal order: impl %s, model %s' % (removed, m['removed']))
+    # optional observation (harness line `ev clean-attempted <hex>...` = Cleaner::removed_): the attempted set, also with -n
+    att = [ev for ev in b.events if ev[0] == 'clean-attempted']
+    if att and sorted(engine.uh(x) for x in att[0][1:]) != sorted(m['attempted']):
+        d.append('removed_ set: impl %s, model %s' % (sorted(engine.uh(x) for x in att[0][1:]), sorted(m['attempted'])))
     if cnt != m['count']: d.append('cleaned_files_count: impl %d, model %d' % (cnt, m['count']))
     if rc != m['status']: d.append('status: impl %d, model %d' % (rc, m['status']))
     post = set(b.files)
